@@ -86,6 +86,7 @@ pub fn new_engine(log: &Log) -> Engine {
 /// Host-side state of one case (values the embedder keeps).
 #[derive(Default)]
 pub struct HostState {
+    pub rooted: Vec<steel::RootedSteelVal>,
     pub held: Vec<SteelVal>,
     pub uniq: String,
     pub pad: usize,
@@ -124,6 +125,19 @@ pub fn run_op(e: &mut Engine, log: &Log, host: &mut HostState, op: &str) -> Got 
         } else if let Some(name) = op.strip_prefix("hold:") {
             let v = e.extract_value(&name.replace("@@", &host.uniq)).map_err(|x| x.to_string())?;
             host.held.push(v);
+            Ok(None)
+        } else if let Some(name) = op.strip_prefix("root:") {
+            // the embedder keeps the value alive through the rooting API only
+            let v = e.extract_value(&name.replace("@@", &host.uniq)).map_err(|x| x.to_string())?;
+            host.rooted.push(v.as_rooted());
+            Ok(None)
+        } else if let Some(rest) = op.strip_prefix("call_rooted:") {
+            // call_rooted:<k>:<function name>  -- apply a script function to the k-th rooted value
+            let (k, f) = rest.split_once(':').ok_or("bad call_rooted")?;
+            let k: usize = k.parse().map_err(|_| "bad index".to_string())?;
+            let arg = host.rooted.get(k).map(|r| r.value().clone()).ok_or("no such rooted value")?;
+            let v = e.call_function_by_name_with_args(&f.replace("@@", &host.uniq), vec![arg]).map_err(|x| x.to_string())?;
+            log.lock().unwrap().push(v.to_string());
             Ok(None)
         } else if let Some(k) = op.strip_prefix("call_held:") {
             let k: usize = k.parse().map_err(|_| "bad index".to_string())?;
